@@ -425,7 +425,7 @@ func builtin___build_class__(self py.Object, args py.Tuple, kwargs py.StringDict
 		return nil, py.ExceptionNewf(py.TypeError, "__build__class__: func must be a function")
 	}
 
-	name := args[1].(py.String)
+	name, ok := args[1].(py.String)
 	if !ok {
 		return nil, py.ExceptionNewf(py.TypeError, "__build_class__: name is not a string")
 	}
